@@ -17,6 +17,7 @@ import (
 	"github.com/buildbuildio/pebbles/queryer"
 	"github.com/vektah/gqlparser/v2"
 	"github.com/vektah/gqlparser/v2/ast"
+	"github.com/vektah/gqlparser/v2/validator"
 )
 
 // Config is a gateway configuration that must not change results.
@@ -230,6 +231,7 @@ func (f *Fed) Run(c Case) *Obs {
 	if err != nil {
 		o.RefErr = err.Error()
 	}
+	o.Coerced, _ = validator.VariableValues(f.Merged, op, rawVars)
 	o.RefData = gqlref.Norm(ref)
 
 	f.Fakes.Reset()
